@@ -16,6 +16,7 @@ mod s_leasedb;
 mod s_radv;
 mod s_c05;
 mod s_cfg;
+mod e2e;
 
 /// Virtual wall clock: when >= 0, every CLOCK_REALTIME read in this process (Rust std and C
 /// libraries alike) returns this many seconds. The symbol overrides libc's at static link time.
@@ -73,6 +74,7 @@ fn run_case(line: &str) -> String {
         "icmp6" => s_c05::icmp6(args),
         "lldp" => s_c05::lldp(args),
         "cfgload" => s_cfg::cfgload(args),
+        "e2e" => e2e::run(args),
         "cfgfield" => s_cfg::cfgfield(args),
         "dhcpacc" => s_c05::dhcpacc(args),
         "toarr" => s_c05::toarr(args),
@@ -104,6 +106,10 @@ impl log::Log for FormatOnly {
     fn flush(&self) {}
 }
 static LOGGER: FormatOnly = FormatOnly;
+
+pub fn last_panic() -> String {
+    LAST_PANIC.with(|p| p.borrow().clone())
+}
 
 fn main() {
     log::set_logger(&LOGGER).expect("harness: logger");
